@@ -40,6 +40,10 @@ CHECKS = {
          "A product walk (every date of year windows at both range ends, year 0 and modern years × month steps -50..50 × all small replacement arguments) is combined with boundary-biased samples (days 28-31, Feb 29, month counts hitting the exact distance to either range end, u32/i32 extremes and bit-field edges for replacement arguments, all 7 week starts near both range ends, all n 0..=255 for the n-th weekday). ~1e8 evaluations in quick, 3e9 in thorough. Sampling outside the walked windows.",
          "Trusted: reference calendar. Month::num_days for years outside NaiveDate's range accepts None or the calendar length (docs and code differ); years_since from a Feb 29 base onto Feb 28 accepts k or k+1. DateTime<Tz> replacement is C04's.",
          "DESIGN.md §4 C08"),
+ "C09": ("runtime round-trip monitor print -> FromStr for every default text form, with an independent shape scanner for the three stated shape rules; exhaustive walk over all dates (thorough), every second x fraction catalogue, all 2879 whole-minute offsets x boundary instants incl. the headroom",
+         "Values are built from reference integers, printed with Display and Debug, parsed back and compared field by field; the printed text is scanned independently for 'fewest of 0/3/6/9 lossless fraction digits', 'sign exactly outside 0..=9999' and 'second 60 exactly for leap seconds'. NaiveDate is exhaustive in thorough (191M dates; quick walks ~9600 years around every place where the printed form changes), times cover every second x 33 fractions, offsets are exhaustive over whole minutes. Sampling for the date x time x offset product.",
+         "Trusted: reference calendar; the scanner only checks the three stated rules. Three known findings (NaiveDateTime Display form; wall date in the headroom, Debug and Display) are listed in known_findings.json. DateTime<Local> is not covered.",
+         "DESIGN.md §4 C09"),
  "C14": ("runtime soundness/completeness/contradiction monitors on Parsed: all 21 fields recomputed from a value by the reference calendar, a reference resolver written from the rustdoc decides what a field set denotes; all 2^14 date-field subsets for boundary days, random (thorough: all 2^21) subsets of all fields, single-field contradictions, hostile field values, setters twice",
          "Every to_* resolution method is called on field sets derived from real values (sufficient, insufficient, with one contradicting or out-of-range field) and on independently random fields; a successful result is compared field by field with every supplied field (soundness), derived sufficient sets must give exactly the value (completeness), and the error kind is asserted only where the property names it. Subset enumeration is exhaustive for the 14 date fields on 44+ boundary days; the rest is sampling.",
          "Trusted: reference calendar and the reference resolver in harness/src/props/c14.rs (self-checked on derived sets each run). Ambiguous situations (two-digit year groups resolved against a timestamp, missing second with a timestamp) are held only to 'error or sound success'.",
